@@ -1159,6 +1159,41 @@ func genEngines(r *runner, rng *hx.Rng, thorough bool) {
 		doc := randDoc(rng)
 		c := JCase{Doc: doc, Field: true, Optional: rng.Intn(4) == 0}
 
+		if i%3 != 0 {
+			// a filter aimed at the value the first path selects: one keyword at its boundary (hit or near miss)
+			nodes := allNodes(node{nil, doc})
+			n := nodes[1+rng.Intn(len(nodes)-1)]
+			st := n2steps(n.loc, rng)
+
+			for j := range st {
+				if st[j].K == "name" && st[j].Q == 1 && len(st[j].S) != 1 {
+					st[j].Q = 2
+				}
+			}
+
+			c.Steps = append(c.Steps, st)
+			c.Paths = append(c.Paths, renderPath(st))
+			c.Filter = targetedSchema(rng, n.v)
+
+			if rng.Intn(3) == 0 {
+				st2 := randPath(rng, doc)
+				if definite(st2) {
+					for j := range st2 {
+						if st2[j].Q == 3 {
+							st2[j].Q = 0
+						}
+					}
+
+					c.Steps = append(c.Steps, st2)
+					c.Paths = append(c.Paths, renderPath(st2))
+				}
+			}
+
+			r.doJPath("field-aimed", c, true)
+
+			continue
+		}
+
 		for k, np := 0, 1+rng.Intn(2); k < np; k++ {
 			st := randPath(rng, doc)
 			for j := range st { // filterField runs the filter engine only
@@ -1183,4 +1218,126 @@ func genEngines(r *runner, rng *hx.Rng, thorough bool) {
 
 		r.doJPath("field", c, true)
 	}
+}
+
+// targetedSchema: a filter in which one keyword sits at its boundary for the value v (satisfied, or missed by one), the
+// type usually being the value's own so that the keyword decides.
+func targetedSchema(rng *hx.Rng, v JV) *JSchema {
+	s := &JSchema{}
+	p := func(n int64) *int64 { return &n }
+
+	if rng.Intn(4) > 0 {
+		s.Type = typeOf(v)
+		if v.T == "n" && rng.Bool() {
+			s.Type = "integer"
+		}
+	}
+
+	other := func() JV {
+		for {
+			o := randScalar(rng)
+			if o.T != "z" && o.canon() != v.canon() {
+				return o
+			}
+		}
+	}
+
+	aim := func(t *JSchema) {
+		k := rng.Intn(8)
+
+		switch {
+		case k == 0: // const: the value itself or another one
+			c := v
+			if rng.Bool() || v.T == "z" {
+				c = other()
+			}
+
+			t.Const = &c
+		case k == 1: // enum with or without the value
+			t.Enum = []JV{other()}
+			if rng.Bool() {
+				t.Enum = append(t.Enum, v)
+			}
+		case k == 2: // the wrong / right type
+			t.Type = []string{"string", "number", "integer", "boolean", "array", "object", "null", typeOf(v)}[rng.Intn(8)]
+		case v.T == "s":
+			n := len(v.S)
+
+			switch rng.Intn(4) {
+			case 0:
+				t.MinLen = n + 1
+			case 1:
+				if n >= 1 {
+					t.MinLen = n
+				} else {
+					t.MinLen = 1
+				}
+			case 2:
+				if n >= 2 {
+					t.MaxLen = n - 1
+				} else {
+					t.MaxLen = 1
+				}
+			default:
+				if n >= 1 {
+					t.MaxLen = n
+				} else {
+					t.MaxLen = 2
+				}
+			}
+		case v.T == "n":
+			z := v.N
+
+			switch rng.Intn(8) {
+			case 0:
+				t.Min = p(z)
+			case 1:
+				t.Min = p(z + 1)
+			case 2:
+				t.Max = p(z)
+			case 3:
+				t.Max = p(z - 1)
+			case 4:
+				t.EMin = p(z)
+			case 5:
+				t.EMin = p(z - 1)
+			case 6:
+				t.EMax = p(z)
+			default:
+				t.EMax = p(z + 1)
+			}
+		case v.T == "a":
+			sub := &JSchema{}
+
+			if len(v.A) > 0 && rng.Intn(3) > 0 {
+				e := v.A[rng.Intn(len(v.A))]
+				if rng.Bool() && e.T != "z" {
+					sub.Const = &e
+				} else {
+					sub.Type = typeOf(e)
+				}
+			} else {
+				o := other()
+				sub.Const = &o
+			}
+
+			t.Contains = sub
+		default:
+			t.Type = typeOf(v)
+		}
+	}
+
+	if rng.Intn(4) == 0 {
+		// the aimed keyword under a not
+		s.Not = &JSchema{}
+		aim(s.Not)
+
+		if len(s.Not.toMap()) == 0 {
+			s.Not.Type = typeOf(v)
+		}
+	} else {
+		aim(s)
+	}
+
+	return s
 }
